@@ -417,6 +417,7 @@ def run_prop(prop, tier, seed):
         fails += transient_error_probes(rep)
         fails += failing_tool_probe(rep)
         fails += athrow_only_probe(rep)
+        fails += tool_closes_handle_probe(rep)
         fails += concurrent_close_probe(rep)
         fails += scope_over_handle_probe(rep)
     if prop == "C08":
@@ -630,6 +631,74 @@ def athrow_only_probe(rep):
                 if why:
                     fails += 1
                     rep.violation("borrow:athrow-only", {"via": via, "tool": name, "closed_early": early, "why": "an iterator with athrow but without aclose, handed to %s through %s: %s" % (name, via, why)})
+    return fails
+
+
+def tool_closes_handle_probe(rep):
+    """C07, directed: a tool that was given a borrowed handle closes that handle when the tool itself is closed -- in whatever
+    argument position the handle sits (also behind an input that cannot be closed), and in whatever state the tool is (a
+    groupby before its first group, or after the current group was closed).  Afterwards the handle yields nothing more and
+    does not advance the underlying iterator, which stays open for its owner."""
+    fails = 0
+
+    def noclose(n):
+        return U([Obj(100 + j, j) for j in range(n)])
+    shapes = {
+        "zip(uncloseable, handle)": (lambda h: a.zip(noclose(5), h), 1),
+        "zip(handle, uncloseable)": (lambda h: a.zip(h, noclose(5)), 1),
+        "map(f, uncloseable, handle)": (lambda h: a.map(lambda x, y: y, noclose(5), h), 1),
+        "zip_longest(uncloseable, handle)": (lambda h: a.zip_longest(noclose(5), h), 1),
+        "merge(uncloseable, handle)": (lambda h: a.merge(noclose(5), h, key=lambda x: 0), 1),
+        "zip(uncloseable, uncloseable, handle)": (lambda h: a.zip(noclose(5), noclose(5), h), 1),
+        "groupby(handle), closed before the first group": (lambda h: a.groupby(h, key=lambda x: 0), 0),
+        "groupby(handle), closed after the first group was handed out": (lambda h: a.groupby(h, key=lambda x: 0), 1),
+        "groupby(handle), closed after its current group was closed": (lambda h: a.groupby(h, key=lambda x: 0), "close-group"),
+        "enumerate(handle)": (lambda h: a.enumerate(h), 1),
+        "chain(handle)": (lambda h: a.chain(h), 1),
+    }
+    for kind in ("close", "gen"):
+        for name, (mk, steps) in shapes.items():
+            u = make_u(kind, [Obj(j + 1, j) for j in range(8)])
+            real = u.g if kind == "gen" else u
+            got = {}
+
+            async def go():
+                h = a.borrow(real)
+                t = mk(h)
+                if steps == "close-group":
+                    k, g = await t.__anext__()
+                    await g.__anext__()
+                    await g.aclose()
+                else:
+                    for _ in range(steps):
+                        await t.__anext__()
+                await t.aclose()
+                left_before = len(u.items)
+                try:
+                    x = await h.__anext__()
+                    got["handle"] = "yielded item %r" % (getattr(x, "id", x),)
+                except StopAsyncIteration:
+                    got["handle"] = "dead"
+                got["advanced"] = len(u.items) != left_before
+                try:
+                    got["owner"] = (await real.__anext__()).id
+                except StopAsyncIteration:
+                    got["owner"] = "stop"
+            try:
+                drive(go())
+                why = None
+                if got.get("handle") != "dead":
+                    why = "after the tool was closed the handle %s" % (got.get("handle"),)
+                elif got.get("advanced"):
+                    why = "the closed handle advanced the underlying iterator"
+                elif not isinstance(got.get("owner"), int):
+                    why = "the underlying iterator gave its owner %r afterwards" % (got.get("owner"),)
+            except BaseException as e:  # noqa
+                why = "failed with %r (%r)" % (e, got)
+            rep.count(("tool-closes-handle", kind, name), True)
+            if why:
+                fails += 1
+                rep.violation("borrow:tool-closes-handle", {"underlying": kind, "tool": name, "why": "borrow(u) given to %s, the tool then closed: %s" % (name, why)})
     return fails
 
 
